@@ -327,6 +327,11 @@ func driveLifecycle(t *testing.T, in, out string, seed int64) {
 			case "PeerCommit":
 				l.Commit("B")
 				line["res"], line["sig"] = "ok", "PeerCommit"
+			case "Lapse":
+				// the host's next block is dated 15 days later: past the trusting period of every client
+				a.CommitAdvance(15 * 24 * time.Hour)
+				pre = a.Digest("xibc")
+				line["res"], line["sig"] = "ok", "Lapse"
 			case "Create", "Upgrade", "Toggle":
 				n, ty, h, ct := str(st["n"]), str(st["ty"]), int(num(st["h"])), str(st["ct"])
 				content, cs, cons := l.proposal(act, n, ty, h, ct)
